@@ -28,6 +28,30 @@ pub enum BodySpec {
     Form(Vec<(String, String)>),
     /// a reader-backed body; `known_len` = whether its length is declared
     Reader { bytes: Vec<u8>, known_len: bool },
+    /// a typed value given to `body_json`: fields not in alphabetical order, an `f32` (by its bits),
+    /// a nested struct, an option - things that do not survive a detour through `serde_json::Value`
+    Typed { zeta: u32, alpha: String, mid: u32, flag: Option<bool> },
+}
+
+#[derive(Serialize)]
+struct TypedInner {
+    y: f32,
+    b: Option<bool>,
+    a: u8,
+}
+#[derive(Serialize)]
+struct TypedBody {
+    zeta: u32,
+    alpha: String,
+    mid: f32,
+    inner: TypedInner,
+    #[serde(rename = "Kebab-Name")]
+    renamed: (u8, String),
+}
+
+fn typed_body(zeta: u32, alpha: &str, mid: u32, flag: Option<bool>) -> TypedBody {
+    let f = f32::from_bits(mid);
+    TypedBody { zeta, alpha: alpha.to_string(), mid: f, inner: TypedInner { y: f / 3.0, b: flag, a: zeta as u8 }, renamed: (7, alpha.to_string()) }
 }
 
 #[derive(Debug, Clone, PartialEq, Eq, Hash, Serialize, Deserialize)]
@@ -41,6 +65,11 @@ pub struct Case {
     pub content_type_before: Option<String>,
     pub content_type_after: Option<String>,
     pub query: Option<(String, String)>,
+    /// give the body through the generic `body(impl Into<Body>)` instead of the dedicated
+    /// `body_string` / `body_bytes` / `body_json` / `body_form`; capability API: use
+    /// `request(method, url)` instead of the method's own constructor
+    #[serde(default)]
+    pub generic: bool,
 }
 
 #[derive(Serialize)]
@@ -78,6 +107,7 @@ fn body_of(b: &BodySpec) -> Option<HBody> {
         BodySpec::Json(j) => HBody::from_json(&serde_json::from_str::<serde_json::Value>(j).unwrap()).unwrap(),
         BodySpec::Form(f) => HBody::from_form(f).unwrap(),
         BodySpec::Reader { bytes, known_len } => HBody::from_reader(futures_util::io::Cursor::new(bytes.clone()), if *known_len { Some(bytes.len()) } else { None }),
+        BodySpec::Typed { zeta, alpha, mid, flag } => HBody::from_json(&typed_body(*zeta, alpha, *mid, *flag)).unwrap(),
     })
 }
 
@@ -92,8 +122,14 @@ macro_rules! describe {
             let vals: Vec<HeaderValue> = vs.iter().map(|v| HeaderValue::from_str(v).unwrap()).collect();
             b = b.header(n.as_str(), &vals[..]);
         }
-        if let Some(body) = body_of(&c.body) {
-            b = b.body(body);
+        match (&c.body, c.generic) {
+            (BodySpec::None, _) => {}
+            (BodySpec::Str(s), false) => b = b.body_string(s.clone()),
+            (BodySpec::Bytes(v), false) => b = b.body_bytes(v),
+            (BodySpec::Json(j), false) => b = b.body_json(&serde_json::from_str::<serde_json::Value>(j).unwrap()).unwrap(),
+            (BodySpec::Typed { zeta, alpha, mid, flag }, false) => b = b.body_json(&typed_body(*zeta, alpha, *mid, *flag)).unwrap(),
+            (BodySpec::Form(f), false) => b = b.body_form(f).unwrap(),
+            (other, _) => b = b.body(body_of(other).unwrap()),
         }
         if let Some(ct) = &c.content_type_after {
             b = b.content_type(Mime::from_str(ct).unwrap());
@@ -114,7 +150,19 @@ impl crux_core::App for App {
     fn update(&self, ev: Event, _: &mut (), caps: &Capabilities) -> Command<Effect, Event> {
         if let Event::Go(c) = ev {
             let url = url::Url::parse(&c.url).unwrap();
-            let b = caps.http.request(Method::from_str(METHODS[c.method as usize % METHODS.len()]).unwrap(), url);
+            let h = &caps.http;
+            let b = match (c.generic, c.method as usize % METHODS.len()) {
+                (false, 0) => h.get(url),
+                (false, 1) => h.head(url),
+                (false, 2) => h.post(url),
+                (false, 3) => h.put(url),
+                (false, 4) => h.delete(url),
+                (false, 5) => h.patch(url),
+                (false, 6) => h.options(url),
+                (false, 7) => h.trace(url),
+                (false, 8) => h.connect(url),
+                (_, m) => h.request(Method::from_str(METHODS[m]).unwrap(), url),
+            };
             describe!(b, &c).send(|_| Event::Done);
         }
         Command::done()
@@ -130,7 +178,8 @@ fn observed(c: &Case) -> Result<Vec<HttpRequest>, String> {
         } else {
             type H = crux_http::command::Http<CmdEffect, Event>;
             let u = &c.url;
-            let b = match c.method as usize % METHODS.len() {
+            let b = match if c.generic { 99 } else { c.method as usize % METHODS.len() } {
+                99 => H::request(Method::from_str(METHODS[c.method as usize % METHODS.len()]).unwrap(), url::Url::parse(u).unwrap()),
                 0 => H::get(u),
                 1 => H::head(u),
                 2 => H::post(u),
@@ -192,6 +241,7 @@ fn expected(c: &Case) -> Expected {
         BodySpec::Json(j) => (serde_json::to_vec(&serde_json::from_str::<serde_json::Value>(j).unwrap()).unwrap(), Some("application/json")),
         BodySpec::Form(f) => (form_encode(f).into_bytes(), Some("application/x-www-form-urlencoded")),
         BodySpec::Reader { bytes, .. } => (bytes.clone(), Some("application/octet-stream")),
+        BodySpec::Typed { zeta, alpha, mid, flag } => (serde_json::to_vec(&typed_body(*zeta, alpha, *mid, *flag)).unwrap(), Some("application/json")),
     };
     if ct.is_none() {
         ct = mime.map(|m| Ct::Typed(m.to_string()));
@@ -283,6 +333,7 @@ pub fn strategy() -> BoxedStrategy<Case> {
         2 => json.prop_map(BodySpec::Json),
         2 => prop::collection::vec(("[a-zé]{1,4}", "[a-z &=é]{0,6}"), 0..3).prop_map(BodySpec::Form),
         1 => (prop::collection::vec(any::<u8>(), 0..12), any::<bool>()).prop_map(|(bytes, known_len)| BodySpec::Reader { bytes, known_len }),
+        2 => (any::<u32>(), "[a-zé\"]{0,5}", prop_oneof![any::<u32>(), Just(21.3f32.to_bits()), Just(0.1f32.to_bits()), Just(1e20f32.to_bits())], proptest::option::of(any::<bool>())).prop_map(|(zeta, alpha, mid, flag)| BodySpec::Typed { zeta, alpha, mid, flag }),
     ];
     let ct = prop_oneof![Just("application/xml".to_string()), Just("text/csv; charset=utf-8".to_string()), Just("image/png".to_string())];
     (
@@ -294,14 +345,15 @@ pub fn strategy() -> BoxedStrategy<Case> {
         proptest::option::weighted(0.2, ct.clone()),
         proptest::option::weighted(0.2, ct),
         proptest::option::weighted(0.25, ("[a-z é]{0,5}", "[a-z&=é]{0,5}")),
+        proptest::bool::weighted(0.25),
     )
-        .prop_map(|(capability_api, method, url, headers, body, content_type_before, content_type_after, query)| Case { capability_api, method, url, headers, body, content_type_before, content_type_after, query })
+        .prop_map(|(capability_api, method, url, headers, body, content_type_before, content_type_after, query, generic)| Case { capability_api, method, url, headers, body, content_type_before, content_type_after, query, generic })
         .boxed()
 }
 
 fn reproducer(sig: &str) -> Option<Case> {
     match sig {
-        "body-of-unknown-length-lost" => Some(Case { capability_api: false, method: 2, url: "http://example.com/".into(), headers: vec![], body: BodySpec::Reader { bytes: b"abc".to_vec(), known_len: false }, content_type_before: None, content_type_after: None, query: None }),
+        "body-of-unknown-length-lost" => Some(Case { capability_api: false, method: 2, url: "http://example.com/".into(), headers: vec![], body: BodySpec::Reader { bytes: b"abc".to_vec(), known_len: false }, content_type_before: None, content_type_after: None, query: None, generic: true }),
         _ => None,
     }
 }
@@ -322,7 +374,9 @@ pub fn main(mode: Mode) {
                 BodySpec::Json(_) => "body:json",
                 BodySpec::Form(_) => "body:form",
                 BodySpec::Reader { .. } => "body:reader",
+                BodySpec::Typed { .. } => "body:typed-json",
             },
+            if c.generic { "via:generic-body-and-request" } else { "via:dedicated-methods" },
             if c.query.is_some() { "query:struct" } else { "query:none" },
         ];
         match judge(c) {
@@ -376,7 +430,7 @@ pub fn main(mode: Mode) {
                 Report {
                     prop,
                     tier,
-                    rule: "request descriptions: 9 methods; URLs built from components (scheme, ASCII/IDN/IP/userinfo hosts, default and explicit ports, path segments with unicode, percent-escapes and dot segments, queries, fragments); 0-4 header replacements with 1-2 values each over repeated and mixed-case names; body none/string/bytes (up to 9 kB)/JSON/form/reader with known or unknown length; typed content type before or after the body; optional query struct; command API and capability API; non-trivial = >= 2 distinct header names with a multi-valued one, a body, and non-ASCII in URL or body; distinct = distinct case",
+                    rule: "request descriptions: 9 methods; URLs built from components (scheme, ASCII/IDN/IP/userinfo hosts, default and explicit ports, path segments with unicode, percent-escapes and dot segments, queries, fragments); 0-4 header replacements with 1-2 values each over repeated and mixed-case names; body none/string/bytes (up to 9 kB)/JSON value/typed JSON struct (unordered fields, f32, nested, renamed)/form/reader with known or unknown length, given through the dedicated body_* methods or through the generic body(); each method's own constructor or request(method, url); typed content type before or after the body; optional query struct; command API and capability API; non-trivial = >= 2 distinct header names with a multi-valued one, a body, and non-ASCII in URL or body; distinct = distinct case",
                     assumptions: vec![
                         "URLs are valid and header values ASCII (documented preconditions of the builders)".into(),
                         "expected URL = WHATWG serialisation by the url crate (the documented delegate); query pairs are compared after decoding".into(),
